@@ -18,6 +18,7 @@ import ClairModel.Proofs.Maven
 import ClairModel.Proofs.RhcTag
 import ClairModel.Proofs.RhcTagShape
 import ClairModel.Proofs.Semver
+import ClairModel.Proofs.NonAscii
 import ClairModel.Proofs.Pep440
 import ClairModel.Proofs.Pep440Range
 
@@ -59,6 +60,57 @@ theorem gem_pattern_expected :
     key, so `ordString` does not depend on the order of the map literal. -/
 theorem maven_qualifiers_nodup :
     (Gen.Versions.mavenQualifiers.map (·.1)).Nodup := by
+  decide
+
+/-- The expression of `gobin.ParseVersion` is Masterminds' `SemVerRegex`
+    (the linked version) between `^` and `$`, and both are the text the
+    recogniser `Semver.groups` stands for; `fitInt32` still cuts at nine digits. -/
+theorem semver_patterns_expected :
+    Gen.Unicode.semverRegex =
+      "v?([0-9]+)(\\.[0-9]+)?(\\.[0-9]+)?(-([0-9A-Za-z\\-]+(\\.[0-9A-Za-z\\-]+)*))?(\\+([0-9A-Za-z\\-]+(\\.[0-9A-Za-z\\-]+)*))?" ∧
+    Gen.Versions.gobinPattern = "^" ++ Gen.Unicode.semverRegex ++ "$" ∧
+    Gen.Versions.gobinFitLits = [9, 9, 0, 10, 32, 0] := by
+  refine ⟨rfl, ?_, rfl⟩
+  decide
+
+/-! ## Runes outside ASCII, ill-formed UTF-8
+
+  The driver decodes every text the way Go's `range` does (Lib/Utf8.lean:
+  ill-formed bytes become U+FFFD) and the models work on runes.  pep440,
+  rhctag and go-rpm-version only look for ASCII characters (other runes are
+  skipped by the unanchored / token expressions) except for `unicode.IsSpace`
+  (`ParseRange`, the rpm epoch), which follows the regenerated table;
+  semver and gobin use anchored ASCII expressions; Maven consults
+  `unicode.IsDigit` and `unicode.ToLower`, both table-driven in the model. -/
+
+/-- ASCII texts decode to themselves: the theorems about ASCII shapes speak
+    about the bytes of the input. -/
+theorem utf8_decode_ascii (bs : List Nat) (h : ∀ b ∈ bs, b < 128) : Utf8.decode bs = bs.map Char.ofNat :=
+  Utf8.decode_ascii bs h
+
+/-- RubyGems: a version text containing any rune from U+0080 up — hence also
+    any ill-formed byte — is rejected by `NewVersion` (the anchored expression
+    knows ASCII classes only; `\s` is ASCII white space). -/
+theorem gem_non_ascii_rejected (s : List Char) (c : Char) (hm : c ∈ s) (h : 128 ≤ c.toNat) : Gem.parse s = none :=
+  NonAscii.gem_reject s c hm h
+
+/-- Maven: a version text containing a decimal digit of another script (a rune
+    that `unicode.IsDigit` accepts and `big.Int.SetString` does not, e.g.
+    U+0663) is rejected ("unable to parse number"), wherever it stands. -/
+theorem maven_foreign_digit_rejected (pre post : List Char) (r : Char)
+    (hu : Maven.uniIsDigit r = true) (hd : Version.isDigit r = false) :
+    Maven.parse (pre ++ r :: post) = none :=
+  NonAscii.maven_reject pre post r hu hd
+
+/-- The hypothesis is satisfiable (ARABIC-INDIC DIGIT THREE). -/
+example : Maven.uniIsDigit (Char.ofNat 0x663) = true ∧ Version.isDigit (Char.ofNat 0x663) = false := by decide
+
+set_option maxRecDepth 8192 in
+/-- Letters of other scripts are lower-cased by `ordString`: "1-Écl" = "1-écl". -/
+example :
+    (do let a ← Maven.parse ['1', '-', Char.ofNat 0xC9, 'c', 'l']
+        let b ← Maven.parse ['1', '-', Char.ofNat 0xE9, 'c', 'l']
+        pure (Maven.cmp a b)) = some .eq := by
   decide
 
 /-! ## claircore.Version (version.go) -/
